@@ -52,7 +52,7 @@ def generate(tier, rng):
             t2 = mk(rng, tmax=big, maxn=rng.choice([0, 1, 4]), name="other")
             t2["min"] = 0
             cases.append({"op": "append", "tier": t, "args": {"other": t2}, "scale": sc})
-    for _ in range(200 if tier == "quick" else 4000):
+    for _ in range(500 if tier == "quick" else 6000):
         def mk_tg(names):
             tiers = []
             for nm in names:
